@@ -21,6 +21,19 @@ fn main() {
     } else {
         None
     };
+    // glibc malloc: keep freed arena tops instead of trimming them back to the kernel
+    // after every large free (16 workers re-faulting the same pages made some quick
+    // tiers spend 4x more time in the kernel than in the check)
+    #[cfg(all(target_os = "linux", target_env = "gnu"))]
+    unsafe {
+        extern "C" {
+            fn mallopt(param: i32, value: i32) -> i32;
+        }
+        const M_TRIM_THRESHOLD: i32 = -1;
+        const M_TOP_PAD: i32 = -2;
+        mallopt(M_TOP_PAD, 256 << 20);
+        mallopt(M_TRIM_THRESHOLD, i32::MAX);
+    }
     vp::par::install_quiet_panic_hook();
     // resident-set watchdog: a check that outgrows the machine is a machinery
     // failure (exit 3), never a verdict and never an OOM kill of something else
